@@ -9,10 +9,10 @@ for f in sys.argv[1:]:
 missed_first = set("C03-a C04-b C06-b C11-b C01-c C01-d C03-c C05-c C05-d C06-c C07-c C08-c C10-c C11-c C11-d C13-c C13-d C14-c "
                    "C14-d C15-c C01-e C02-e C03-e C04-f C05-e C07-e C09-f C13-e C14-e C18-e "
                    "C10-e C05-g C07-g C07-h C13-g C13-h C14-h C15-g C17-g C18-g "
-                   "C01-j C02-i C03-i C03-j C06-j C10-j C11-j C13-j C15-i C15-j C17-j".split())
+                   "C01-j C02-i C03-i C03-j C06-j C10-j C11-j C13-j C15-i C15-j C17-j C13-n C17-m".split())
 print("| change | what it does | caught as (quick tier) |")
 print("|---|---|---|")
-for s in sorted(os.listdir("/verif/seeded")):
+for s in sorted(d for d in os.listdir("/verif/seeded") if os.path.isdir(f"/verif/seeded/{d}")):
     m = json.load(open(f"/verif/seeded/{s}/meta.json"))
     title = m["title"].replace("|", "/")
     if len(title) > 150:
